@@ -29,7 +29,13 @@ def direct(kind, d):
                 "parsed": PS.def_to_json(back)}
     # what a caller does to ITS parse result must not show in a later parse of the same text (results are not shared)
     want = PS.def_to_json(d)
-    for v in vars(back).values():
+    import dataclasses as _dc
+
+    try:
+        fields = [getattr(back, f.name) for f in _dc.fields(back)]
+    except TypeError:
+        fields = list(getattr(back, "__dict__", {}).values())
+    for v in fields:
         if isinstance(v, list):
             v.append("injected")
         elif isinstance(v, dict):
